@@ -230,7 +230,10 @@ let handle = function
   | ["leaf"; "cbc"; c] -> hex_of_z (sexp_utf8_char_byte_count (z_of_hex c))
   | ["leaf"; "enc"; c] -> string_of_zlist (encode (z_of_hex c))
   | ["leaf"; "dec"; b0; b1; b2; b3] ->
-     (match decode_at [z_of_hex b0; z_of_hex b1; z_of_hex b2; z_of_hex b3] O with
+     (match decode_at [z_of_hex b0; z_of_hex b1; z_of_hex b2; z_of_hex b3] O (z_of_hex "4") with
+      | Some c -> "OK " ^ hex_of_z c | None -> "ERR utf8")
+  | ["leaf"; "dec"; b0; b1; b2; b3; size] ->   (* the string ends after [size] of the four bytes *)
+     (match decode_at [z_of_hex b0; z_of_hex b1; z_of_hex b2; z_of_hex b3] O (z_of_hex size) with
       | Some c -> "OK " ^ hex_of_z c | None -> "ERR utf8")
   | ["len"; st; off; size] -> let (h, s) = mk st off size false in res_nat (string_length h s)
   | ["i2c"; st; off; size; i] -> let (h, s) = mk st off size false in res_nat (index_to_cursor h s (z_of_hex i))
